@@ -3,7 +3,8 @@
 (so that nobody else building from /repo is disturbed), run the named checks against it
 (VERIF_REPO), remove the worktree. Prints one line per property: DETECTED or MISSED."""
 import json, os, subprocess, sys
-mut = sys.argv[1]
+VERIF = os.path.dirname(os.path.dirname(os.path.abspath(__file__)))
+mut = os.path.abspath(sys.argv[1])
 props = sys.argv[2:]
 WT = "/tmp/seedwt_%d" % os.getpid()
 def sh(cmd, **kw):
@@ -17,7 +18,7 @@ try:
     b = sh(f"cd {WT} && {env} go build ./... && {env} go test -vet=off -count=1 ./... 2>&1 | grep -v '^ok\\|no test files' | head -5")
     print("suite:", "PASS" if b.stdout.strip() == "" else "FAIL " + b.stdout[:300])
     for p in props:
-        c = sh(f"cd /verif && VERIF_REPO={WT} ./check {p} --tier quick")
+        c = sh(f"cd {VERIF} && VERIF_REPO={WT} ./check {p} --tier quick")
         v = [l for l in c.stdout.splitlines() if l.startswith("VIOLATION")]
         if v:
             rp = v[0].split("replay=")[1].split()[0]
@@ -30,5 +31,6 @@ try:
             print(f"{p}: MISSED exit={c.returncode} {c.stdout.splitlines()[-1][:200] if c.stdout else ''}")
 finally:
     sh(f"git -C /repo worktree remove --force {WT}")
-    sh("cd /verif && ./build/extract -repo /repo -lean lean -json build/generated.json")
-    sh("cd /verif && python3 -c 'import veriflib as V; V.build_harness()'")
+    sh(f"cd {VERIF} && ./build/extract -repo /repo -lean lean -json build/generated.json")
+    sh(f"cd {VERIF} && ./build/extract_wire -repo /repo -ns Generated -out lean/RedkaModel/Generated/Grammar.lean")
+    sh(f"cd {VERIF} && python3 -c 'import veriflib as V; V.build_harness(True)'")
